@@ -97,6 +97,8 @@ var assets = map[string]*Asset{
 
 // Headers for generated workflows.
 var headers = []string{
+	"on:\n  workflow_dispatch:\n    inputs:\n      alpha:\n        type: string\n        default: ${{ inputs.beta }}\n      beta:\n        type: string\n        description: uses ${{ inputs.gamma }} and ${{ github.event.inputs.alpha }}\n      gamma:\n        type: choice\n        options: [x, y]\n        default: ${{ inputs.nope }}\n",
+	"on:\n  schedule:\n    - cron: '36,38 * * * *'\n    - cron: '*/7 * * * *'\n    - cron: '0 0 * * *'\n  push:\n",
 	"on: push\n",
 	"name: CI\non: [push, pull_request]\n",
 	"on:\n  push:\n    branches: [main]\n  workflow_dispatch:\n    inputs:\n      level:\n        type: choice\n        options: [a, b]\n      dry:\n        type: boolean\n",
@@ -140,6 +142,8 @@ var frags = []*Frag{
 	{Name: "no-matrix-ref", Jobs: []FragJob{{ID: "{P}nomx", Body: "    runs-on: ubuntu-latest\n    steps:\n      - run: echo ${{ matrix.foo }}\n"}}},
 	{Name: "uses-job-with-matrix", Assets: []string{"wf-opt"}, Clean: true, Jobs: []FragJob{{ID: "{P}call", Body: "    strategy:\n      matrix:\n        foo: [1, 2]\n    uses: ./.github/workflows/reuse-opt.yml\n    with:\n      note: n${{ matrix.foo }}\n"}}},
 	{Name: "steps-ids", Jobs: []FragJob{{ID: "{P}st", Body: "    runs-on: ubuntu-latest\n    steps:\n      - run: echo ${{ steps.later.outputs.x }}\n      - id: later\n        run: echo\n      - id: cache\n        uses: actions/cache@v4\n        with:\n          path: p\n          key: k\n      - run: echo ${{ steps.cache.outputs.cache-hit }} ${{ steps.cache.outputs.nope }}\n"}}},
+	{Name: "steps-dynamic-id", Jobs: []FragJob{{ID: "{P}dyn", Body: "    strategy:\n      matrix:\n        name: [a, b]\n    runs-on: ubuntu-latest\n    steps:\n      - id: ${{ matrix.name }}\n        run: echo\n      - run: echo ${{ steps.whatever.outputs.x }}\n"}}},
+	{Name: "steps-undefined-ref", Jobs: []FragJob{{ID: "{P}und", Body: "    runs-on: ubuntu-latest\n    steps:\n      - id: real\n        run: echo\n      - run: echo ${{ steps.ghost.outputs.x }} ${{ steps.real.outputs.y }}\n"}}},
 	{Name: "expr-type-errors", Jobs: []FragJob{{ID: "{P}ty", Body: "    runs-on: ubuntu-latest\n    env:\n      A: ${{ github.event.foo.bar }}\n    steps:\n      - run: echo ${{ github.nope }} ${{ startsWith('a') }}\n      - run: echo ${{ env.A == 1 && unknownfn() }}\n        if: ${{ github.event_name == 'push' }} && true\n"}}},
 	{Name: "untrusted", Jobs: []FragJob{{ID: "{P}inj", Body: "    runs-on: ubuntu-latest\n    steps:\n      - run: echo \"${{ github.event.pull_request.title }}\" \"${{ github.event.issue.body }}\"\n      - uses: actions/github-script@v7\n        with:\n          script: console.log('${{ github.head_ref }}')\n"}}},
 	{Name: "runner-labels", Jobs: []FragJob{
